@@ -183,6 +183,16 @@ pub fn run_exit_contract(
                 out.fail = fail("mute-shows-errors", format!("-m still shows {} messages, first: {} [cmd: {cmd}]", shown.len(), clip_pub(&shown[0].text)));
                 return out;
             }
+            // the whole statistics file, not only its totals
+            if !fatal0 {
+                if let Some(site) = mute_stats_difference(&r0, &specs[0], &r, spec) {
+                    out.fail = fail(
+                        &site,
+                        format!("the statistics file written with -m differs from the one written without: {} [cmd: {cmd}]", site),
+                    );
+                    return out;
+                }
+            }
             if !fatal0 && (r.status != r0.status || (file.is_some() && file != file0) || (rep.is_some() && rep != rep0)) {
                 out.fail = fail(
                     "mute-changes-result",
@@ -316,4 +326,59 @@ pub fn run_rejected(ex: &mut Executor, spec: &ExecSpec, label: &str) -> TrialOut
         );
     }
     out
+}
+
+/// Compare the statistics files of the unmuted and the muted run. None: identical (timing fields aside).
+/// The one difference that is a known finding gets its own site: ALPIDE lane errors, whose per-lane
+/// context (and with it the sub-codes E9003/E9004/E9005) is left out of the stored message when muted.
+fn mute_stats_difference(r0: &ExecResult, s0: &ExecSpec, r: &ExecResult, s: &ExecSpec) -> Option<String> {
+    let a = r0.stats_file.as_ref().and_then(|b| oracle::parse_stats(b, &s0.stats_ext))?;
+    let b = r.stats_file.as_ref().and_then(|b| oracle::parse_stats(b, &s.stats_ext))?;
+    if a == b {
+        return None;
+    }
+    let mut a2 = a.clone();
+    let mut b2 = b.clone();
+    let mut only_lane_context = true;
+    // reported_errors: the tool stores a muted message without its context lines (the RDH dump of an
+    // [E10]/[E11], the per-lane details of an [E74]/[E75]): by design, and only the text a reader would be
+    // shown. What must agree is the first line of every message (position, code, finding).
+    let ea = a.pointer("/error_stats/reported_errors").and_then(|v| v.as_array()).cloned().unwrap_or_default();
+    let eb = b.pointer("/error_stats/reported_errors").and_then(|v| v.as_array()).cloned().unwrap_or_default();
+    if ea.len() != eb.len() {
+        only_lane_context = false;
+    } else {
+        for (x, y) in ea.iter().zip(eb.iter()) {
+            let (x, y) = (x.as_str().unwrap_or(""), y.as_str().unwrap_or(""));
+            let first = |t: &str| t.lines().next().unwrap_or("").trim_end().to_string();
+            if first(x) != first(y) {
+                only_lane_context = false;
+            }
+        }
+    }
+    // unique_error_codes: the muted list is the unmuted one without 9003 / 9004 / 9005
+    let ca: Vec<String> = a.pointer("/error_stats/unique_error_codes").and_then(|v| v.as_array()).map(|v| v.iter().filter_map(|x| x.as_str().map(String::from)).collect()).unwrap_or_default();
+    let cb: Vec<String> = b.pointer("/error_stats/unique_error_codes").and_then(|v| v.as_array()).map(|v| v.iter().filter_map(|x| x.as_str().map(String::from)).collect()).unwrap_or_default();
+    let ca_f: Vec<&String> = ca.iter().filter(|c| !["9003", "9004", "9005"].contains(&c.as_str())).collect();
+    let cb_f: Vec<&String> = cb.iter().filter(|c| !["9003", "9004", "9005"].contains(&c.as_str())).collect();
+    if ca_f != cb_f {
+        only_lane_context = false;
+    }
+    for v in [&mut a2, &mut b2] {
+        if let Some(es) = v.get_mut("error_stats").and_then(|e| e.as_object_mut()) {
+            es.remove("reported_errors");
+            es.remove("unique_error_codes");
+        }
+    }
+    if a2 != b2 {
+        only_lane_context = false;
+    }
+    if only_lane_context && ca == cb {
+        return None;
+    }
+    Some(if only_lane_context {
+        "mute-changes-statistics-file:alpide-lane-context".to_string()
+    } else {
+        "mute-changes-statistics-file".to_string()
+    })
 }
